@@ -564,6 +564,7 @@ type FuncContract struct {
 	Ghost     []*GhostUpd
 	LockMode  string
 	Placeholder bool // created by an `extend` block before the main block was seen
+	Monitor   []*Clause // `monitor E`: monitor invariant / rely condition at every sync.Cond.Wait of this unit
 }
 
 type GhostUpd struct {
@@ -1026,6 +1027,16 @@ func parseFuncClause(f *FuncContract, word, rest string, no int, mk func(kind, t
 			return err
 		}
 		f.Ghost = append(f.Ghost, &GhostUpd{t, v})
+	case "monitor":
+		// monitor E — the monitor invariant of the condition variable's lock: proved immediately before every
+		// sync.Cond.Wait executed by this unit (Wait releases the lock, so other goroutines must find E), and assumed
+		// right after it (every goroutine re-establishes E before it releases the lock; old(...) parts are the rely
+		// condition: what no other goroutine changes)
+		c, err := mk(word, rest, no)
+		if err != nil {
+			return err
+		}
+		f.Monitor = append(f.Monitor, c)
 	case "panicsif":
 		c, err := mk(word, rest, no)
 		if err != nil {
